@@ -28,6 +28,11 @@ claim("C07", "Lean 4 proof (count invariant over scalar head / unrolled popcount
       "Machine-checked theorem: the model of the generic vector count_raw equals countP over the window for every region/alignment/window (count_ones law proved per mask type).",
       COMMON_NOTE + "Iterator-level count (current window) is added with the iterator model.", "DESIGN.md 7 C07")
 
+claim("C18", "Lean 4 proof (loop invariant over the 4-byte steps, then the 2- and 1-byte remainder) + differential correspondence with guard pages",
+      "Machine-checked theorems: is_equal_raw on any two readable ranges returns exactly byte-wise equality with every load in range; is_equal / is_prefix / is_suffix equal slice ==, starts_with, ends_with for all valid slices (all lengths, all placements). Correspondence: real functions on operands placed at every offset incl. flush against PROT_NONE guard pages, compared with the model (value) and with the slice oracle.",
+      COMMON_NOTE + "A multi-byte load is modelled as the list of bytes it reads (word equality = byte-list equality on any endianness).",
+      "DESIGN.md 7 C18")
+
 ALL = ["C%02d" % i for i in range(1, 20)]
 
 def main():
